@@ -38,14 +38,18 @@ def stub_expected(body):
 
 async def _consume(parser, data, header_length, items, real):
     n = 0
-    async for fr in parser.receive_data(data, header_length):
-        n += 1
-        if n > LIMIT:
-            return False
-        if real:
-            items.append(FR.dump(fr))
-        else:
-            items.append('X' if not isinstance(fr, str) else fr)
+    try:
+        async for fr in parser.receive_data(data, header_length):
+            n += 1
+            if n > LIMIT:
+                return False
+            if real:
+                items.append(FR.dump(fr))
+            else:
+                items.append('X' if not isinstance(fr, str) else fr)
+    except Exception as e:
+        # the parser itself raised on this read: an outcome of the code under test, not a harness failure
+        items.append('RAISED:' + type(e).__name__)
     return True
 
 
@@ -218,15 +222,19 @@ class C04(Prop):
             t = TransportTCP(reader, W(), read_buffer_size=case['read'])
             items = []
             for _ in range(len(data) + 2):
-                g = await t.next_frame_generator()
-                if g is None:
+                try:
+                    g = await t.next_frame_generator()
+                    if g is None:
+                        return items, True
+                    n = 0
+                    async for fr in g:
+                        n += 1
+                        if n > LIMIT:
+                            return items, False
+                        items.append(FR.dump(fr))
+                except Exception as e:
+                    items.append('RAISED:' + type(e).__name__)
                     return items, True
-                n = 0
-                async for fr in g:
-                    n += 1
-                    if n > LIMIT:
-                        return items, False
-                    items.append(FR.dump(fr))
             return items, False
         items, ok = lp.run_until_complete(go())
         return {'expected': expected, 'valid_only': valid_only, 'runs': {'read=%d' % case['read']: {'items': items, 'residual': '', 'terminated': ok}}, 'nbytes': len(data)}
